@@ -308,7 +308,8 @@ def public_atoms(facts, fn, tables):
                     return None
         # public params table: [fn regex, param name regex]
         for ent in pparams:
-            if re.fullmatch(ent["fn"], name) and pname is not None and re.fullmatch(ent["param"], pname):
+            if re.fullmatch(ent["fn"], name) and ((ent.get("index") and atom[1] in ent["index"]) or
+                                                  (not ent.get("index") and pname is not None and re.fullmatch(ent["param"], pname))):
                 if ent.get("int_only") and td.get("k") not in ("uint", "int"):
                     continue
                 return "public parameter (%s)" % ent["why"]
